@@ -134,7 +134,7 @@ func (s *writeScan) root(x ast.Expr, depth int) rootInfo {
 		}
 		if a, ok := s.alias[o]; ok {
 			r := s.root(a, depth+1)
-			if r.kind != "local" {
+			if r.kind == "global" || r.kind == "param" {
 				return r
 			}
 		}
